@@ -290,7 +290,7 @@ func runC04(env *lib.Env, rep *lib.Report) {
 		if seed == "t1x8" {
 			a.FailingInsert = true // refused statements before the flush (what they stamp or use up is not in the log)
 		}
-		cfgs = append(cfgs, histCfg{Name: "real/" + seed, Seed: seed, Alpha: a, Depth: d, TickChoice: true})
+		cfgs = append(cfgs, histCfg{Name: "real/" + seed, Seed: seed, Alpha: a, Depth: d, TickChoice: true, TickInStmt: seed == "t1x8" || seed == "t1x12+t2x1"})
 	}
 	cfgs = append(cfgs, histCfg{Name: "leaf3-int3/t1x8", Opt: worldOpt{Leaf: 3, Internal: 3}, Seed: "t1x8", Alpha: alpha, Depth: d, TickChoice: true})
 	// two statements before the flush, inserts only, from the two smallest seeds
@@ -298,7 +298,7 @@ func runC04(env *lib.Env, rep *lib.Report) {
 	cfgs = append(cfgs, histCfg{Name: "real/empty/inserts", Seed: "empty", Alpha: ins, Depth: d + 2, TickChoice: true},
 		histCfg{Name: "real/t1x8/inserts", Seed: "t1x8", Alpha: ins, Depth: d + 1, TickChoice: true})
 	rep.Bounds["history depth before the torn flush"] = d
-	rep.Bounds["flush kinds"] = "timer tick, CREATE TABLE's final flush, clean shutdown, the flush that ends recovery; then a second torn flush inside the recovery of the first torn image"
+	rep.Bounds["flush kinds"] = "timer tick, CREATE TABLE's final flush, clean shutdown, the flush that ends recovery, a timer tick that arrives while one more INSERT/UPDATE/DELETE is between its page changes and its log append (two seeds); then a second torn flush inside the recovery of the first torn image"
 	rep.Bounds["torn states per flush"] = "all 2^|D| subsets of the flush's page writes with the header pending, plus the completed flush (|D| <= 10, else singletons/co-singletons and the tag capped)"
 	rep.Bounds["configs"] = cfgNames(cfgs)
 	explore(env, rep, 0, c04Body(cfgs, env.OpenKnown()))
@@ -335,6 +335,9 @@ func c04Body(cfgs []histCfg, known map[string]lib.KnownEntry) lib.Body {
 		inFlight := "" // table whose CREATE TABLE is in flight
 		// the flush to be torn
 		kinds := []string{"tick", "close", "recovery"}
+		if cfg.TickInStmt {
+			kinds = append(kinds, "tick-in-statement")
+		}
 		if _, has := w.model.Tables["t3"]; !has {
 			kinds = append(kinds, "create")
 		}
@@ -343,6 +346,54 @@ func c04Body(cfgs []histCfg, known map[string]lib.KnownEntry) lib.Body {
 		switch kind {
 		case "tick":
 			if !w.tick() {
+				return
+			}
+		case "tick-in-statement":
+			// the timer fires while one more statement is between its page changes and its log append (the flush
+			// waits for the statement; an engine whose flush does not wait writes unlogged changes). The crash
+			// image starts from the files as they are when the flush begins.
+			s := w.pick(alphaOpt{Tables: []string{"t1"}, Inserts: []int{1}, Updates: true, Deletes: true, FewDeletes: true}, "stmt-under-tick")
+			if !strings.HasPrefix(s.SQL, "INSERT") && !strings.HasPrefix(s.SQL, "UPDATE") && !strings.HasPrefix(s.SQL, "DELETE") {
+				c.Tag("tick-in-statement:not-a-dml-statement")
+				return
+			}
+			pre := w.model.clone()
+			var snap image
+			finish := w.store().TickInside(func() { snap = w.image() })
+			w.scheduled = true // (the flush may still hold the lock when the statement returns)
+			c.Logf("TICK while the next statement is between its page changes and its log append")
+			ok := w.do(s)
+			var fired, inside bool
+			var ferr error
+			if perr := guard(func() error { fired, inside, ferr = finish(); return nil }); perr != nil {
+				w.failErr("flush-failed", "timer flush", perr)
+				return
+			}
+			w.scheduled = false
+			if !ok {
+				return
+			}
+			if ferr != nil {
+				c.Fail("flush-failed", "timer flush: %v", ferr)
+				return
+			}
+			switch {
+			case !fired:
+				// the statement wrote nothing to the log: nothing to see here
+				c.Tag("tick-in-statement:statement-logged-nothing")
+				return
+			case inside:
+				// the flush ran inside the statement: at the crash the statement is not acknowledged
+				c.Logf("the flush ran to its end while the statement had not appended anything to the log yet")
+				c.Tag("tick-in-statement:flush-did-not-wait")
+				w.model = pre
+				base = snap
+			default:
+				c.Tag("tick-in-statement:flush-waited")
+				base = snap
+			}
+			if base == nil {
+				c.Fail("flush-failed", "the timer fired but no flush started")
 				return
 			}
 		case "close":
